@@ -168,3 +168,24 @@ func EncodeResponse(callID uint32, resp proto.Message, exc *pb.ExceptionResponse
 	binary.BigEndian.PutUint32(out, uint32(len(body)))
 	return append(out, body...)
 }
+
+// EncodeRawResponse builds a response frame from an explicit header (which may
+// be malformed on purpose), an optional body and raw trailing bytes.
+func EncodeRawResponse(hdr *pb.ResponseHeader, resp proto.Message, trailer []byte) []byte {
+	hb, _ := proto.Marshal(hdr)
+	var body []byte
+	body = protowire.AppendBytes(body, hb)
+	if resp != nil {
+		rb, _ := proto.Marshal(resp)
+		body = protowire.AppendBytes(body, rb)
+	}
+	body = append(body, trailer...)
+	out := make([]byte, 4, 4+len(body))
+	binary.BigEndian.PutUint32(out, uint32(len(body)))
+	return append(out, body...)
+}
+
+// Exc builds an exception response header payload.
+func Exc(class, msg string) *pb.ExceptionResponse {
+	return &pb.ExceptionResponse{ExceptionClassName: proto.String(class), StackTrace: proto.String(msg)}
+}
